@@ -34,10 +34,14 @@ fn alphabet(small: bool) -> Vec<Sx> {
     for &m in &ms { v.push(op_addrule(m, 0)); if !small { v.push(op_addrule(m, 2)); } }
     for &to in &ms { for &from in &ms {
         v.push(op_import(to, from, 0, 0, None));
-        if !small { v.push(op_import(to, from, 2, 1, None)); v.push(op_import(to, from, 4, 0, Some(0))); }
+        if !small { v.push(op_import(to, from, 2, 1, None)); v.push(op_import(to, from, 4, 0, Some(0)));
+                    // re-exports of a narrower pattern: a module may carry several re-exporting imports with different patterns
+                    v.push(op_import(to, from, 0, 0, Some(3))); v.push(op_import(to, from, 0, 0, Some(1))); v.push(op_import(to, from, 0, 5, Some(2))); }
     } }
     v
 }
+
+fn full_pick(rng: &mut Rng) -> Sx { let f = alphabet(false); rng.pick(&f).clone() }
 
 pub fn gen(tier: Tier, rng: &mut Rng) -> Vec<Sx> {
     let (u, r) = universe();
@@ -57,6 +61,21 @@ pub fn gen(tier: Tier, rng: &mut Rng) -> Vec<Sx> {
         for a in &alpha { for b in &alpha { for c in &alpha { for d in &alpha {
             let mut o = pre3.clone(); o.extend(vec![a.clone(), b.clone(), c.clone(), d.clone()]); v.push(mk(o));
         } } } }
+    }
+    // re-export chains: B imports from X twice (or from X and Y) with two different re-export patterns, A imports B; rules owned by the sources
+    let nre = if tier == Tier::Thorough { 20000 } else { 1500 };
+    for _ in 0..nre {
+        let mut ops = vec![op_create(1), op_create(2)];
+        let src2 = if rng.chance(1, 2) { ops.push(op_create(3)); 3 } else { 0 };
+        for r in 0..3 { if rng.chance(3, 4) { ops.push(op_addrule(if rng.chance(1, 2) { 0 } else { src2 }, r)); } }
+        if rng.chance(3, 4) { ops.push(op_export(0, 0, 0)); } if src2 != 0 && rng.chance(3, 4) { ops.push(op_export(src2, 0, 0)); }
+        let p1 = rng.below(6) as usize; let p2 = rng.below(6) as usize;
+        ops.push(op_import(2, 0, 0, 0, Some(p1)));
+        ops.push(op_import(2, src2, 0, 0, Some(p2)));
+        if rng.chance(1, 3) { ops.push(op_import(2, 0, 0, 0, None)); }
+        ops.push(op_import(1, 2, 0, 0, None));
+        if rng.chance(1, 4) { ops.push(full_pick(rng)); }
+        v.push(mk(ops));
     }
     // random sequences to length 7 over the full alphabet, biased to build import chains first
     let full = alphabet(false);
